@@ -1,0 +1,21 @@
+//go:build verif
+
+// Read-only access for the verification harness (build tag verif): the SRP computation with
+// the client ephemeral secret supplied by the caller, and the password hash PH2.
+
+package srp
+
+// VerifGetInputCheckPassword is getInputCheckPassword with the random bytes injected.
+func VerifGetInputCheckPassword(password string, srpB []byte, mp *ModPow, random []byte) (*SrpAnswer, error) {
+	return getInputCheckPassword(password, srpB, mp, random)
+}
+
+// VerifPasswordHash2 is PH2(password, salt1, salt2).
+func VerifPasswordHash2(password, salt1, salt2 []byte) []byte {
+	return passwordHash2(password, salt1, salt2)
+}
+
+// VerifPad256 is pad256.
+func VerifPad256(b []byte) []byte {
+	return pad256(b)
+}
